@@ -10,7 +10,7 @@ C30 = dict(
     engine="adds", check_targets=["Check/CheckAdds.vo"], proof_targets=["Props/C30.vo"],
     theorems=[("C30", t) for t in [
         "C30_init_decodes_to_request", "C30_init_encoding_injective", "C30_v128_bits_exact", "C30_constants_meet_spec",
-        "C30_add_global_appends", "C30_add_memory_appends", "C30_add_data_appends", "C30_add_export_appends", "C30_histories_only_append",
+        "C30_add_global_appends", "C30_requested_type_kept", "C30_add_memory_appends", "C30_add_data_appends", "C30_add_export_appends", "C30_histories_only_append",
         "C30_mod_init_changes_only_that_global", "C30_mod_init_emission",
         "C30_data_section_exact", "C30_export_section_exact", "C30_global_section_exact", "C30_memory_section_exact",
         "C30_add_global_end_to_end", "C30_add_globals_sequence", "C30_base_globals_clean",
@@ -27,7 +27,7 @@ C30 = dict(
                "add_global / add_local_memory / add_data / add_export append exactly one item and return its position, lifted over histories of any length by induction; mod_global_init_expr changes exactly one "
                "initialiser (state and emission level); every data segment / export / global / memory of the model's output is the stored request; on every freshly parsed module add_global (and any sequence of add_global with constant / ref.null initialisers) yields the old module plus exactly the requested globals, ids consecutive and mapped to themselves; agree is equality, hence an added data segment is in the "
                "*observed* output at the returned id with exactly the requested bytes for every history. Partial for the index-space part (returned ids designate the items after imports are added / entities deleted): "
-               "decided per history in Coq on the decoded real output by the handle specification; known class 300 (D03 -- global exports copied instead of re-indexed --, D06 -- a deleted added import stayed in the index space -- and D24 -- an iterator-level add_global was not counted, so the id of a following add_imported_global collided -- are repaired; their former witnesses are the positive examples C30_former_D03_witness_holds / C30_former_D06_witness_holds / C30_former_D24_witness_holds).",
+               "decided per history in Coq on the decoded real output by the handle specification; no known class is left (D03 -- global exports copied instead of re-indexed --, D06 -- a deleted added import stayed in the index space --, D24 -- an iterator-level add_global was not counted, so the id of a following add_imported_global collided -- and D30 / class 300 -- DataType::FuncRef / ExternRef were declared as the nullable funcref / externref -- are repaired; their former witnesses are the positive examples C30_former_D03_witness_holds / C30_former_D06_witness_holds / C30_former_D24_witness_holds / C30_former_D30_witness_holds).",
     level_note=NOTE, trusted_base=TB,
     technique="Coq theorems over a hand-written model + independent executable specification evaluated in Coq on the real decoded output + refutation witnesses",
     design_ref="5/C30",
